@@ -113,6 +113,39 @@ theorem bindLast_append (isA : Name → Name → Bool) (s : Slot) :
     have e : i + 1 + pre.length = i + (pre.length + 1) := by omega
     rw [e]
 
+/-- an argument that throws is somewhere in the list when `firstThrow` finds one -/
+theorem firstThrow_some (n : Nat) : ∀ (slots : List Slot) (i : Nat), firstThrow i slots = some n →
+    ∃ s ∈ slots, s.a = .throws
+  | [], _, h => by simp [firstThrow] at h
+  | s :: r, i, h => by
+    unfold firstThrow at h
+    cases ha : s.a with
+    | throws => exact ⟨s, by simp, ha⟩
+    | val v =>
+      rw [ha] at h
+      obtain ⟨u, hu, hua⟩ := firstThrow_some n r (i+1) h
+      exact ⟨u, by simp [hu], hua⟩
+    | missing =>
+      rw [ha] at h
+      obtain ⟨u, hu, hua⟩ := firstThrow_some n r (i+1) h
+      exact ⟨u, by simp [hu], hua⟩
+
+/-- evaluating every argument before the first is bound (methods) does not change whether the body runs -/
+theorem bindEvalFirst_ran_iff (isA : Name → Name → Bool) (slots : List Slot) :
+    bindEvalFirst .eachChecked isA slots = .ran ↔ bindArgs .eachChecked isA slots = .ran := by
+  unfold bindEvalFirst
+  cases hf : firstThrow 0 slots with
+  | none => simp
+  | some n =>
+    obtain ⟨s, hs, hsa⟩ := firstThrow_some n slots 0 hf
+    have hnf : s.fine isA = false := by simp [Slot.fine, hsa]
+    constructor
+    · intro h; cases h
+    · intro h
+      have := (bindEach_ran_iff isA slots 0).mp h s hs
+      rw [hnf] at this
+      cases this
+
 /-- several stores in a row: nothing is refused iff every value is admitted -/
 theorem storeSeq_none_iff (isA : Name → Name → Bool) :
     ∀ (l : List (BKind × Ty × ValKind)) (i : Nat),
